@@ -66,6 +66,15 @@ def check_wrap_width(ctx, fb, rule):
                 while q['k'] in ('CXXStaticCastExpr', 'CStyleCastExpr', 'CXXFunctionalCastExpr', 'ParenExpr',
                                  'ImplicitCastExpr') and q.get('ch'):
                     q = f.nodes[q['ch'][0]]
+                if q['k'] == 'DeclRefExpr' and q.get('id') is not None and q['id'] not in f.params:
+                    # a named local: `const auto all_done = -r;` is the negation, in the local's type
+                    from rules import lib_attach
+                    init = lib_attach._single_def(f, q['id'])
+                    if init is not None:
+                        q = f.nodes[init]
+                        while q['k'] in ('CXXStaticCastExpr', 'CStyleCastExpr', 'CXXFunctionalCastExpr', 'ParenExpr',
+                                         'ImplicitCastExpr', 'ExprWithCleanups') and q.get('ch'):
+                            q = f.nodes[q['ch'][0]]
                 sides.append((m, q['k'] == 'UnaryOperator' and q.get('op') == '-'))
             neg = [i for i, (m, isneg) in enumerate(sides) if isneg]
             if not neg:
